@@ -230,7 +230,8 @@ pub const FRAGMENTS: &[&str] = &[
     "@a{1}", "@&a{2}", "@A{}", "@&A", "@b", "@&b{1%g}", "#p", "#&p", "#&P{2}", "@&(1)d{}", "@&(~1)d{}", "@&(2)d{}", "@&(=1)d{}",
     "@&(=~1)d{}", "@&(~2)d{}", "@+a{}", "@-a", "@?a", "@&c{}", "~t{1%min}", "~{}", "~n", "text", "\\", "\n\n", "\n", "= s\n", "=\n",
     "> p\n\n", ">> [mode]: components\n", ">> [mode]: steps\n", ">> [mode]: text\n", ">> [mode]: all\n", ">> [duplicate]: ref\n",
-    ">> [duplicate]: new\n", "@&+a{}", "@&a{}(n)", "@ß{} @&SS{}", "180 C ",
+    ">> [duplicate]: new\n", "@&+a{}", "@&a{}(n)", "@ß{} @&SS{}", "180 C ", "#p|q{}", "#&q", "@a|z{}", "@&z{}", "@./x/a{}", "@&./x/a{1}", "~ {}", "~[- c -]{}",
+    "@a{}[- c -]@b{}", "@&(=~1)d{} ",
 ];
 
 pub fn run(ctx: &mut Ctx) {
